@@ -18,7 +18,8 @@ class _Color(enum.Enum):
 LEGAL = (str, int, float, bool, complex, bytes)
 VALUES = {
     "int": 3, "float": 2.5, "str": "s", "bool": True, "bytes": b"b", "neg": -4, "zero": 0, "empty": "",
-    "enum": _Color.BLUE, "none": None, "list": [1, 2], "tuple": (1, 2), "dict": {"a": 1}, "object": object(), "set": {1},
+    "enum": _Color.BLUE, "none": None, "fraction": __import__("fractions").Fraction(1, 3), "decimal": __import__("decimal").Decimal("1.5"),
+    "frozenset": frozenset({1}), "range": range(3), "list": [1, 2], "tuple": (1, 2), "dict": {"a": 1}, "object": object(), "set": {1},
 }
 # templates: {N} the captured NAME as written at the use site (N, K.N, K.I.N, mod.N), {B} a bare name that is
 # BOUND inside the lambda and merely spelled like the captured global/closure name
@@ -68,7 +69,7 @@ TEMPLATES = {
     "shadow-twice-then-outer-bare": "lambda {B}: ({B}.jets.Select(lambda {B}: {B}.tr.Select(lambda {B}: {B}.q)), {B})",
 }
 SOURCES = ("closure", "closure-over-global", "global", "class", "class-inherited", "nested-class", "module",
-           "instance-dict", "instance-class-constant", "instance-property", "instance-getattr")
+           "instance-dict", "instance-class-constant", "instance-property", "instance-getattr", "instance-slots", "namedtuple-field")
 
 _N = [0]
 
@@ -96,6 +97,10 @@ def module_for(source, template, name, value, op="Select"):
         head = f"class KC:\n    {name} = VALUE\nK = KC()\n"
     elif source == "instance-property":
         head = f"class KP:\n    @property\n    def {name}(self):\n        return VALUE\nK = KP()\n"
+    elif source == "instance-slots":  # an object without a __dict__
+        head = f"class KS:\n    __slots__ = ('{name}',)\n    def __init__(self):\n        self.{name} = VALUE\nK = KS()\n"
+    elif source == "namedtuple-field":
+        head = f"import collections\nKN = collections.namedtuple('KN', ['{name}', 'other'])\nK = KN(VALUE, 0)\n"
     elif source == "instance-getattr":  # a wrapper that serves its settings through __getattr__
         head = (f"class KG:\n    def __getattr__(self, n):\n        if n == '{name}':\n            return VALUE\n"
                 f"        raise AttributeError(n)\nK = KG()\n")
